@@ -46,6 +46,11 @@ pub struct Program {
 const CAPS: [Option<usize>; 6] = [None, None, Some(1), Some(2), Some(4), Some(16)];
 
 pub fn gen_program(r: &mut Rng, with_double_claim: bool) -> Program {
+    gen_program_kind(r, with_double_claim, false)
+}
+
+/// `channels_only`: programs made of channel steps (C05, client level).
+pub fn gen_program_kind(r: &mut Rng, with_double_claim: bool, channels_only: bool) -> Program {
     let nclients = r.range(2, 4);
     let mut clients = Vec::new();
     for _ in 0..nclients {
@@ -70,7 +75,8 @@ pub fn gen_program(r: &mut Rng, with_double_claim: bool) -> Program {
             for _ in 0..n {
                 let cancel = if r.chance(1, 5) { Some(1 + r.below(6) as u32) } else { None };
                 let server = r.below(nservers);
-                let s = match r.below(if with_double_claim { 24 } else { 23 }) {
+                let pick = if channels_only { 14 + r.below(3) } else { r.below(if with_double_claim { 24 } else { 23 }) };
+                let s = match pick {
                     0 => Step::SyncClient,
                     1 => Step::SyncBroker,
                     2 => Step::Version,
@@ -82,7 +88,7 @@ pub fn gen_program(r: &mut Rng, with_double_claim: bool) -> Program {
                         peer: r.below(nclients),
                         sender_here: r.bool(),
                         capacity: *r.pick(&[1u32, 2, 4, 5, 16]),
-                        items: r.below(14) as u32,
+                        items: if channels_only { r.below(40) as u32 } else { r.below(14) as u32 },
                         consumer_stops_after: if r.chance(1, 4) { Some(r.below(5) as u32) } else { None },
                         producer_drops_after: if r.chance(1, 4) { Some(r.below(5) as u32) } else { None },
                     },
